@@ -93,7 +93,15 @@ def amu(model, lo, rs):
     return 1 if bad else 0
 
 
+def parts():
+    from symx import build as _b
+    exe = _b.build_tool(os.path.join(VERIF, 'replay', 'c15_parts.cpp'), 'c15_parts')
+    sys.exit(subprocess.call([exe]))
+
+
 def main():
+    if len(sys.argv) > 1 and sys.argv[1] == 'parts':
+        return parts()
     kind = sys.argv[1]
     if kind == 'pct':
         sys.exit(pct(sys.argv[2]))
